@@ -1,3 +1,4 @@
+import Sebuf.TimeText
 import Sebuf.Gen.Decoders
 import Sebuf.Lemmas.Surgery
 import Sebuf.Lemmas.Bytes
@@ -231,5 +232,35 @@ member by member and returns) and the scalar root unwrap (`json.Unmarshal(data, 
 truncates a slice but keeps the entries of a non-nil map). The last two are the recorded
 `decoder_keeps_target_state` findings; any other decoder joining this list is a regression. -/
 theorem decoders_that_keep_target_state : keepsTargetState = ["Status", "MapValReq", "UnwrapScalarsReq"] := by decide
+
+/-! ## unix-seconds / unix-millis decode and the zone of the process
+
+`Sebuf.TimeText` models what `time.Time.Format(time.RFC3339Nano)` writes for a zone whose offset has seconds and
+what a reader makes of it. The decode edit is pinned to the `.UTC()` form by `C11.edit_blocks_transcribed`. -/
+
+open TimeText in
+/-- **in UTC the round trip through the text is exact**, for every instant (the emitted edit since `9170ac2`). -/
+theorem unix_decode_exact_in_utc (n : Int) : decodeUTC n = n := by
+  simp [decodeUTC, parse, format]
+
+open TimeText in
+/-- **in a local zone the decoded instant is off by the seconds of the zone's offset** (what the edit did before):
+the text cannot carry them. -/
+theorem unix_decode_local_error (n off : Int) : decodeLocal n off = n + off.tmod 60 := by
+  have h := Int.tmod_add_mul_tdiv off 60
+  simp only [decodeLocal, parse, format]
+  omega
+
+open TimeText in
+/-- so the local form is exact exactly for the offsets that are whole minutes. -/
+theorem unix_decode_local_exact_iff (n off : Int) : decodeLocal n off = n ↔ off.tmod 60 = 0 := by
+  rw [unix_decode_local_error]; omega
+
+open TimeText in
+/-- regression witness (the input fix `9170ac2` was found on): year 1 in `Pacific/Kiritimati`-like local mean time
++12:37:12 reads 12 s late; a whole-minute zone (+14:00) is exact. -/
+theorem w_unix_decode_lmt_offset :
+    decodeLocal (-62135596800) 45432 = -62135596800 + 12 ∧ decodeLocal (-62135596800) 50400 = -62135596800 := by
+  decide
 
 end Sebuf.C04
